@@ -6,7 +6,6 @@
 package c09
 
 import (
-	"fmt"
 	"math"
 	"strconv"
 	"strings"
@@ -18,7 +17,6 @@ import (
 	"verif/lib/es5"
 	"verif/lib/gen"
 	"verif/lib/harness"
-	"verif/lib/m09"
 )
 
 func TestMain(m *testing.M) { harness.Main(m, "C09") }
@@ -475,10 +473,6 @@ func alphabetClasses(u []uint16) []string {
 	return out
 }
 
-var _ = fmt.Sprint
-var _ = m09.Equal
-
-// known reports whether a finding's exclusion class is active in this run.
-var knownOff bool
-
-func known(id string) bool { return !knownOff && harness.Known(id) }
+// known reports whether a finding's exclusion class is active in this run: the finding is listed
+// for C09 and its pinned witness still fails on the tree under test.
+func known(id string) bool { return harness.Known(id) }
